@@ -158,7 +158,9 @@ func facts(m protoreflect.Message, depth int, mapped bool, out *[]node) {
 				facts(m.Get(fd).Message(), depth+1, mapped, out)
 			}
 		default:
-			if fd.ContainingOneof() == nil || m.Has(fd) {
+			// only populated scalars were generated (messages beyond the nesting limit are left as
+			// empty shells by design)
+			if m.Has(fd) {
 				scalarFacts(fd, m.Get(fd))
 			}
 		}
@@ -257,7 +259,7 @@ func cmdRapidgen(args []string) {
 	w := bufio.NewWriter(of)
 	defer w.Flush()
 	anyURLs := []string{}
-	for _, cand := range []string{"verif.s0.N", "B", "verif.xb.Leaf"} {
+	for _, cand := range []string{"verif.s0.N", "B", "verif.xb.Leaf", "verif.xa.Box"} {
 		if _, err := protoregistry.GlobalTypes.FindMessageByName(protoreflect.FullName(cand)); err == nil {
 			anyURLs = append(anyURLs, "/"+cand)
 		}
